@@ -12,18 +12,24 @@ namespace PM
 
 /-! ### the general theorem -/
 
-/-- once the destination is open and only infallible statements remain (`openW`, `newBuf`, `writeBuf`), the only
-thing that can still go wrong is a `writeBuf` on an unbound buffer (a programming error, not a refusal) -/
-theorem exec_after_open (o : DumpObj) (path : Path) (ho : o.openErr = none) :
+/-- once something destructive has happened and only infallible statements remain (`openW`, `unlink`, `newBuf`,
+`writeBuf`; and the open either cannot fail or does not occur), the only thing that can still go wrong is a `writeBuf`
+on an unbound buffer / unopened file (a programming error, not a refusal) -/
+theorem exec_after_open (o : DumpObj) (path : Path) :
     ∀ (sc : List Eff) (st : DumpSt), sc.all (fun e => !e.fallible) = true →
+      (o.openErr = none ∨ sc.all (fun e => e != .openW) = true) →
       ∀ f, (exec o path sc st).result = .error f → f.1 = .writeBuf := by
   intro sc
   induction sc with
-  | nil => intro st _ f h; simp [exec] at h
+  | nil => intro st _ _ f h; simp [exec] at h
   | cons e rest ih =>
-    intro st hall f h
+    intro st hall ho f h
     simp only [List.all_cons, Bool.and_eq_true] at hall
     obtain ⟨he, hrest⟩ := hall
+    have ho' : o.openErr = none ∨ rest.all (fun e => e != .openW) = true := by
+      rcases ho with ho | ho
+      · exact .inl ho
+      · simp only [List.all_cons, Bool.and_eq_true] at ho; exact .inr ho.2
     cases e with
     | validate => simp [Eff.fallible] at he
     | getParser => simp [Eff.fallible] at he
@@ -32,11 +38,18 @@ theorem exec_after_open (o : DumpObj) (path : Path) (ho : o.openErr = none) :
     | buildFile => simp [Eff.fallible] at he
     | buildMem => simp [Eff.fallible] at he
     | openW =>
-      simp only [exec, step, ho] at h
-      exact ih _ hrest f h
+      have hoe : o.openErr = none := by
+        rcases ho with ho | ho
+        · exact ho
+        · simp at ho
+      simp only [exec, step, hoe] at h
+      exact ih _ hrest ho' f h
+    | unlink =>
+      simp only [exec, step] at h
+      exact ih _ hrest ho' f h
     | newBuf =>
       simp only [exec, step] at h
-      exact ih _ hrest f h
+      exact ih _ hrest ho' f h
     | writeBuf =>
       simp only [exec, step] at h
       cases hb : st.buffer with
@@ -44,8 +57,15 @@ theorem exec_after_open (o : DumpObj) (path : Path) (ho : o.openErr = none) :
       | some b =>
         simp only [hb] at h
         by_cases hop : st.opened = true
-        · simp only [hop, if_true] at h; exact ih _ hrest f h
+        · simp only [hop, if_true] at h; exact ih _ hrest ho' f h
         · simp [hop] at h; rw [← h]
+
+theorem all_and_left {α : Type} (l : List α) (p q : α → Bool) (h : l.all (fun e => p e && q e) = true) :
+    l.all p = true ∧ l.all q = true := by
+  rw [List.all_eq_true] at h
+  constructor <;> rw [List.all_eq_true] <;> intro x hx
+  · exact (Bool.and_eq_true _ _ ▸ h x hx).1
+  · exact (Bool.and_eq_true _ _ ▸ h x hx).2
 
 /-- before the destination is opened no statement touches the file system; if the script has the safe shape, a
 failure anywhere except in `writeBuf` leaves the file system as it was -/
@@ -65,7 +85,12 @@ theorem exec_safe (o : DumpObj) (path : Path) :
       | none =>
         exfalso
         simp only [exec, step, ho] at h
-        exact hne (exec_after_open o path ho rest _ hs f h)
+        exact hne (exec_after_open o path rest _ (all_and_left rest _ _ hs).1 (.inl ho) f h)
+    | unlink =>
+      simp only [noFallibleAfterOpen] at hs
+      exfalso
+      simp only [exec, step] at h
+      exact hne (exec_after_open o path rest _ (all_and_left rest _ _ hs).1 (.inr (all_and_left rest _ _ hs).2) f h)
     | validate =>
       simp only [noFallibleAfterOpen] at hs
       simp only [exec, step] at h ⊢
@@ -128,7 +153,8 @@ theorem exec_safe (o : DumpObj) (path : Path) :
 If `dump` fails in `validate()`, in `serialize()` at whichever nested validator or section writer, in the encoder of
 `build_file`, in `_get_parser()`, in an unrecognised statement, or because the destination could not be opened –
 anywhere but in the final plain write –, the file system (every path, the destination included) is exactly what it
-was.  "Safe shape": nothing that runs code of the object, the encoder included, comes after the open. -/
+was.  "Safe shape": nothing that runs code of the object, the encoder included, comes after the open, and nothing fallible
+at all (the open included) after a removal of the destination. -/
 theorem C18_general (sc : List Eff) (h : noFallibleAfterOpen sc = true)
     (obj : DumpObj) (fs : FS) (path : Path) (eff : Eff) (e : Err) :
     (run sc obj fs path).2 = .error (eff, e) → eff ≠ .writeBuf → (run sc obj fs path).1 = fs := by
@@ -431,6 +457,19 @@ theorem C18_preF19_witness :
   refine ⟨by decide, by decide, { serialize := .ok "{}".toList, buildFail := some (1, .typeError) },
     (fun _ => some "good".toList), "p".toList, ?_, rfl, ?_, ?_⟩
     <;> simp [preF19Shape, run, exec, step, liftErr, FS.write]
+
+/-- A removal of the destination before the work is done (seeded change C18-t4a: "break the hardlink" right after the
+top-level `validate()`) does not have the safe shape either: a nested validator refuses inside `serialize` and the
+last good copy is gone from the path. -/
+theorem C18_unlink_witness :
+    noFallibleAfterOpen [.validate, .unlink, .getParser, .serialize, .newBuf, .buildMem, .openW, .writeBuf] = false
+    ∧ ∃ (obj : DumpObj) (fs : FS) (path : Path),
+        (run [.validate, .unlink, .getParser, .serialize, .newBuf, .buildMem, .openW, .writeBuf] obj fs path).2
+            = .error (.serialize, .valueError)
+        ∧ fs path = some "good".toList
+        ∧ (run [.validate, .unlink, .getParser, .serialize, .newBuf, .buildMem, .openW, .writeBuf] obj fs path).1 path = none := by
+  refine ⟨by decide, { serialize := .error .valueError }, (fun _ => some "good".toList), "p".toList, ?_, rfl, ?_⟩
+    <;> simp [run, exec, step, liftErr]
 
 /-! ### non-vacuity -/
 example : noFallibleAfterOpen [.validate, .getParser, .serialize, .newBuf, .buildMem, .openW, .writeBuf] = true := by decide
